@@ -121,39 +121,66 @@ theorem parseBlock_multi (cfg : PCfg) (st : PState) (cs : List Cmd) :
 def TxnSafe (c : Cmd) : Prop :=
   lower c.name ≠ wMulti ∧ lower c.name ≠ wExec ∧ Filter.eqFold (lower c.name) wSelect = false
 
-/-- between MULTI and EXEC, with nothing bypassed and no database blacklist,
-    every safe command leaves the parser running; the transaction buffer only
-    grows at its end -/
-theorem step_inTxn_safe (cfg : PCfg) (st : PState) (c : Cmd) (off : Nat)
-    (hin : st.inTxn = true) (hb : st.bypass = false) (hs : TxnSafe c) :
-    ∃ txn', step cfg st (lower c.name) c.args off = ({ st with txn := txn', prevOff := off }, .none) ∧
-      ∃ ext, txn' = st.txn ++ ext := by
+/-- what a safe command contributes to the parser's buffer: nothing when it is
+    consumed (PING), on the command blacklist, a sentinel hello, or withheld by
+    the key filter; otherwise itself with the (possibly projected) arguments -/
+def extOf (cfg : PCfg) (c : Cmd) : List Cmd :=
+  if lower c.name == wPing then []
+  else if cfg.filter.filterCmd (lower c.name) then []
+  else if Filter.eqFold (lower c.name) wPublish && !c.args.isEmpty &&
+      Filter.eqFold (c.args.headD []) wSentinelHello then []
+  else
+    match cfg.filter.filterCmdKey (lower c.name) c.args with
+    | none => []
+    | some a' => [⟨lower c.name, a'⟩]
+
+theorem extOf_cases (cfg : PCfg) (c : Cmd) :
+    extOf cfg c = [] ∨ ∃ a', cfg.filter.filterCmdKey (lower c.name) c.args = some a' ∧
+      extOf cfg c = [⟨lower c.name, a'⟩] := by
+  unfold extOf
+  split
+  · left; rfl
+  · split
+    · left; rfl
+    · split
+      · left; rfl
+      · cases h : cfg.filter.filterCmdKey (lower c.name) c.args with
+        | none => left; rfl
+        | some a' => right; exact ⟨a', rfl, rfl⟩
+
+/-- with nothing bypassed, a safe command either is dropped or reaches
+    `stepData` with its filtered arguments -/
+theorem step_safe (cfg : PCfg) (st : PState) (c : Cmd) (off : Nat) (hb : st.bypass = false) (hs : TxnSafe c) :
+    step cfg st (lower c.name) c.args off =
+      match extOf cfg c with
+      | [] => ({ st with prevOff := off }, .none)
+      | c' :: _ =>
+        if st.inTxn then ({ st with txn := st.txn ++ [c'], prevOff := off }, .none)
+        else if touchesNamespace c' then ({ st with prevOff := off }, .none)
+        else
+          match buildUnit cfg.mode cfg.resolver [c'] with
+          | .error e => (st, .err (.build e))
+          | .ok u =>
+            ({ st with prevOff := off, seq := st.seq + 1 }, .emit ⟨st.seq, st.prevOff, off, false, u⟩) := by
   obtain ⟨h1, h2, h3⟩ := hs
-  unfold step
+  obtain ⟨bypass, prevOff, seq, inTxn, txnStart, txn⟩ := st
+  simp only at hb
+  subst hb
+  have hn : ¬ ((-1 : Int) ≥ 0) := by omega
+  unfold step extOf
   rw [beq_of_ne h1, beq_of_ne h2]
   simp only [Bool.false_eq_true, ↓reduceIte]
   unfold preFilter
   by_cases hp : lower c.name = wPing
-  · -- PING: consumed
-    have : (lower c.name != wPing) = false := by simp [hp]
-    rw [this]
-    simp only [Bool.false_eq_true, ↓reduceIte]
-    have hn : ¬ ((-1 : Int) ≥ 0) := by omega
-    simp only [hn, ↓reduceIte]
-    have : (lower c.name == wPing) = true := by simp [hp]
-    rw [this]
-    simp only [↓reduceIte]
-    refine ⟨st.txn, ?_, [], by simp⟩
-    cases st
-    simp only at hb
-    subst hb
-    rfl
-  · rw [bne_of_ne hp, h3]
+  · have e1 : (lower c.name != wPing) = false := by simp [hp]
+    have e2 : (lower c.name == wPing) = true := by simp [hp]
+    rw [e1, e2]
+    simp only [Bool.false_eq_true, ↓reduceIte, hn]
+  · rw [bne_of_ne hp, beq_of_ne hp, h3]
     simp only [↓reduceIte, Bool.false_eq_true]
     by_cases hbl : cfg.filter.filterCmd (lower c.name) = true
     · rw [hbl]
       simp only [↓reduceIte]
-      exact ⟨st.txn, by cases st; rfl, [], by simp⟩
     · have hbl' : cfg.filter.filterCmd (lower c.name) = false := by
         cases hx : cfg.filter.filterCmd (lower c.name) with
         | true => exact absurd hx hbl
@@ -164,53 +191,138 @@ theorem step_inTxn_safe (cfg : PCfg) (st : PState) (c : Cmd) (off : Nat)
           Filter.eqFold (c.args.headD []) wSentinelHello) = true
       · rw [hpub]
         simp only [↓reduceIte]
-        exact ⟨st.txn, by cases st; rfl, [], by simp⟩
       · have hpub' : (Filter.eqFold (lower c.name) wPublish && !c.args.isEmpty &&
             Filter.eqFold (c.args.headD []) wSentinelHello) = false := by
           cases hx : (Filter.eqFold (lower c.name) wPublish && !c.args.isEmpty &&
             Filter.eqFold (c.args.headD []) wSentinelHello) with
           | true => exact absurd hx hpub
           | false => rfl
-        rw [hpub', hb]
-        simp only [Bool.false_eq_true, ↓reduceIte]
-        have hn : ¬ ((-1 : Int) ≥ 0) := by omega
-        simp only [hn, ↓reduceIte]
-        rw [beq_of_ne hp]
-        simp only [Bool.false_eq_true, ↓reduceIte]
+        rw [hpub']
+        simp only [Bool.false_eq_true, ↓reduceIte, hn]
         unfold stepData
         cases hk : cfg.filter.filterCmdKey (lower c.name) c.args with
-        | none =>
-          simp only
-          refine ⟨st.txn, ?_, [], by simp⟩
-          cases st
-          simp only at hb
-          subst hb
-          rfl
+        | none => rfl
         | some a' =>
-          simp only [Bool.false_eq_true, ↓reduceIte, hin]
-          refine ⟨st.txn ++ [⟨lower c.name, a'⟩], ?_, [_], rfl⟩
-          cases st
-          simp only at hb
-          subst hb
-          rfl
+          simp only [Bool.false_eq_true, ↓reduceIte]
+          cases inTxn <;> rfl
+
+/-- inside a transaction a safe command only extends the buffer -/
+theorem step_inTxn_safe (cfg : PCfg) (st : PState) (c : Cmd) (off : Nat)
+    (hin : st.inTxn = true) (hb : st.bypass = false) (hs : TxnSafe c) :
+    step cfg st (lower c.name) c.args off = ({ st with txn := st.txn ++ extOf cfg c, prevOff := off }, .none) := by
+  rw [step_safe cfg st c off hb hs]
+  rcases extOf_cases cfg c with h | ⟨a', _, h⟩
+  · rw [h]; simp
+  · rw [h]; simp [hin]
 
 /-- a run of safe commands inside a transaction -/
 theorem parseCmds_inTxn_safe (cfg : PCfg) (cs rest : List Cmd) (st : PState)
     (acc : List Emit) (hin : st.inTxn = true) (hb : st.bypass = false) (hs : ∀ c ∈ cs, TxnSafe c) :
-    ∃ ext off', parseCmds cfg st (cs ++ rest) acc =
-      parseCmds cfg { st with txn := st.txn ++ ext, prevOff := off' } rest acc := by
+    ∃ off', parseCmds cfg st (cs ++ rest) acc =
+      parseCmds cfg { st with txn := st.txn ++ cs.flatMap (extOf cfg), prevOff := off' } rest acc := by
   induction cs generalizing st with
   | nil =>
-    refine ⟨[], st.prevOff, ?_⟩
-    simp only [List.nil_append, List.append_nil]
+    refine ⟨st.prevOff, ?_⟩
+    simp only [List.nil_append, List.flatMap_nil, List.append_nil]
   | cons c cs ih =>
-    obtain ⟨txn', hstep, ext, hext⟩ := step_inTxn_safe cfg st c (st.prevOff + respLen c) hin hb (hs c (by simp))
+    have hstep := step_inTxn_safe cfg st c (st.prevOff + respLen c) hin hb (hs c (by simp))
     rw [List.cons_append, parseCmds_step_none cfg st _ c (cs ++ rest) acc hstep rfl]
-    obtain ⟨ext2, off2, h2⟩ := ih { st with txn := txn', prevOff := st.prevOff + respLen c } hin hb
+    obtain ⟨off2, h2⟩ := ih { st with txn := st.txn ++ extOf cfg c, prevOff := st.prevOff + respLen c } hin hb
       (fun c' hc' => hs c' (List.mem_cons_of_mem _ hc'))
-    refine ⟨ext ++ ext2, off2, ?_⟩
+    refine ⟨off2, ?_⟩
     rw [h2]
-    simp only [hext, List.append_assoc]
+    simp only [List.flatMap_cons, List.append_assoc]
+
+/-- outcome of the parser on one block, started idle -/
+inductive BlockOut (cfg : PCfg) (st : PState) (b : Block) : Prop where
+  /-- nothing comes out, the parser goes on -/
+  | quiet (st' : PState) (h : parseBlock cfg st b = ([], st', none)) (hi : Idle st') (hseq : st'.seq = st.seq)
+  /-- exactly one unit holding `cmds` comes out -/
+  | emit (st' : PState) (e : Emit) (h : parseBlock cfg st b = ([e], st', none)) (hi : Idle st')
+      (hseq : st'.seq = st.seq + 1) (heseq : e.seq = st.seq)
+  /-- the parser stops with a build error -/
+  | stop (st' : PState) (e : BuildErr) (h : parseBlock cfg st b = ([], st', some (.build e)))
+
+/-- what the parser does with a whole `MULTI … EXEC` block of safe commands,
+    starting idle: the buffer it tests at EXEC is the filtered body -/
+theorem parseBlock_multi_safe (cfg : PCfg) (cs : List Cmd) (st : PState) (hi : Idle st)
+    (hs : ∀ c ∈ cs, TxnSafe c) :
+    (isMirroredTxn (cs.flatMap (extOf cfg)) = true ∨ cs.flatMap (extOf cfg) = [] →
+      ∃ st', parseBlock cfg st (.multi cs) = ([], st', none) ∧ Idle st' ∧ st'.seq = st.seq) ∧
+    (isMirroredTxn (cs.flatMap (extOf cfg)) = false → cs.flatMap (extOf cfg) ≠ [] →
+      (∀ u, buildUnit cfg.mode cfg.resolver (cs.flatMap (extOf cfg)) = .ok u →
+        ∃ st' off, parseBlock cfg st (.multi cs) = ([⟨st.seq, st.prevOff, off, true, u⟩], st', none) ∧
+          Idle st' ∧ st'.seq = st.seq + 1) ∧
+      (∀ e, buildUnit cfg.mode cfg.resolver (cs.flatMap (extOf cfg)) = .error e →
+        ∃ st', parseBlock cfg st (.multi cs) = ([], st', some (.build e)))) := by
+  obtain ⟨hin, hb⟩ := hi
+  obtain ⟨bypass, prevOff, seq, inTxn, txnStart, txn⟩ := st
+  simp only at hin hb
+  subst hin; subst hb
+  rw [parseBlock_multi]
+  have hm : step cfg ⟨false, prevOff, seq, false, txnStart, txn⟩ (lower mMulti.name) mMulti.args
+      (prevOff + respLen mMulti) =
+      (⟨false, prevOff + respLen mMulti, seq, true, prevOff, []⟩, .none) :=
+    step_multi cfg _ _ _ rfl
+  rw [List.cons_append, parseCmds_step_none cfg _ _ mMulti (cs ++ [mExec]) [] hm rfl]
+  obtain ⟨off1, h1⟩ := parseCmds_inTxn_safe cfg cs [mExec]
+    ⟨false, prevOff + respLen mMulti, seq, true, prevOff, []⟩ [] rfl rfl hs
+  rw [h1]
+  simp only [List.nil_append]
+  rw [parseCmds_cons]
+  have hexn : lower mExec.name = wExec := by decide
+  rw [hexn]
+  constructor
+  · rintro (hmir | hemp)
+    · rw [step_exec_mirrored cfg _ _ _ rfl hmir]
+      exact ⟨_, rfl, ⟨rfl, rfl⟩, rfl⟩
+    · by_cases hmir : isMirroredTxn (cs.flatMap (extOf cfg)) = true
+      · rw [step_exec_mirrored cfg _ _ _ rfl hmir]
+        exact ⟨_, rfl, ⟨rfl, rfl⟩, rfl⟩
+      · rw [step_exec_empty cfg _ _ _ rfl hemp]
+        exact ⟨_, rfl, ⟨rfl, rfl⟩, rfl⟩
+  · intro hmir hne
+    rw [step_exec_build cfg _ _ _ rfl hmir hne]
+    constructor
+    · intro u hu
+      rw [hu]
+      exact ⟨_, _, rfl, ⟨rfl, rfl⟩, rfl⟩
+    · intro e he
+      rw [he]
+      exact ⟨_, rfl⟩
+
+/-- … and with a stand-alone safe command -/
+theorem parseBlock_single_safe (cfg : PCfg) (c : Cmd) (st : PState) (hi : Idle st) (hs : TxnSafe c) :
+    (extOf cfg c = [] ∨ (∃ c' t, extOf cfg c = c' :: t ∧ touchesNamespace c' = true) →
+      ∃ st', parseBlock cfg st (.single c) = ([], st', none) ∧ Idle st' ∧ st'.seq = st.seq) ∧
+    (∀ c' t, extOf cfg c = c' :: t → touchesNamespace c' = false →
+      (∀ u, buildUnit cfg.mode cfg.resolver [c'] = .ok u →
+        ∃ st' off, parseBlock cfg st (.single c) = ([⟨st.seq, st.prevOff, off, false, u⟩], st', none) ∧
+          Idle st' ∧ st'.seq = st.seq + 1) ∧
+      (∀ e, buildUnit cfg.mode cfg.resolver [c'] = .error e →
+        ∃ st', parseBlock cfg st (.single c) = ([], st', some (.build e)))) := by
+  obtain ⟨hin, hb⟩ := hi
+  obtain ⟨bypass, prevOff, seq, inTxn, txnStart, txn⟩ := st
+  simp only at hin hb
+  subst hin; subst hb
+  rw [parseBlock_single, parseCmds_cons, step_safe cfg _ c _ rfl hs]
+  constructor
+  · rintro (h | ⟨c', t, h, ht⟩)
+    · rw [h]
+      exact ⟨_, rfl, ⟨rfl, rfl⟩, rfl⟩
+    · rw [h]
+      simp only [Bool.false_eq_true, ↓reduceIte, ht]
+      exact ⟨_, rfl, ⟨rfl, rfl⟩, rfl⟩
+  · intro c' t h ht
+    rw [h]
+    simp only [Bool.false_eq_true, ↓reduceIte, ht]
+    constructor
+    · intro u hu
+      rw [hu]
+      exact ⟨_, _, rfl, ⟨rfl, rfl⟩, rfl⟩
+    · intro e he
+      rw [he]
+      exact ⟨_, rfl⟩
 
 /-! ### mirrored transactions -/
 
